@@ -65,8 +65,6 @@ func (h *ConsistentHash) Add(node any) {
 // replicas will be truncated to h.replicas if it's larger than h.replicas,
 // the later call will overwrite the replicas of the former calls.
 func (h *ConsistentHash) AddWithReplicas(node any, replicas int) {
-	h.Remove(node)
-
 	if replicas > h.replicas {
 		replicas = h.replicas
 	}
@@ -74,6 +72,9 @@ func (h *ConsistentHash) AddWithReplicas(node any, replicas int) {
 	nodeRepr := repr(node)
 	h.lock.Lock()
 	defer h.lock.Unlock()
+	// drop the former placement and add the new one in one critical section,
+	// otherwise overlapping adds of the same node leave duplicated virtual nodes
+	h.remove(nodeRepr)
 	h.addNode(nodeRepr)
 
 	for i := 0; i < replicas; i++ {
@@ -143,6 +144,11 @@ func (h *ConsistentHash) Remove(node any) {
 	h.lock.Lock()
 	defer h.lock.Unlock()
 
+	h.remove(nodeRepr)
+}
+
+// remove drops the node from the ring, the caller holds the lock.
+func (h *ConsistentHash) remove(nodeRepr string) {
 	if !h.containsNode(nodeRepr) {
 		return
 	}
